@@ -276,7 +276,13 @@ def run_shard(ctx, spec):
         for m in relang.mutants(c, full, rnd, 3):
             attach.call(mon.N, m)
             nm += 1
-    for s in ['', ' ', 'X', '100X', 'H0', 'L0', 'DTT', '4x', 'x100', '100 m', 'HJJ', 'SP7.26KGG', 'JT900', 'None', '\n', 'DEC\n\n']:
+        # look-alike characters (superscript digits, long s, Kelvin sign, full-width forms): what str.isdigit()/upper() accept
+        # and the patterns do not
+        for m in relang.lookalikes(c, rnd, 3):
+            attach.call(mon.N, m)
+            ctx.count('eval.lookalike-spelling')
+    for s in ['\u00b2', '10\u00b2', '\u00b9\u2070\u2070', '\u2460', '4\u2070\u2070', '\u2167', '\u00bd', '\u0661\u0660\u0660', '\uff11\uff10\uff10',
+              '', ' ', 'X', '100X', 'H0', 'L0', 'DTT', '4x', 'x100', '100 m', 'HJJ', 'SP7.26KGG', 'JT900', 'None', '\n', 'DEC\n\n']:
         attach.call(mon.N, s)
     ctx.require('judged.closure', 500)
     ctx.require('judged.classes-multi', 200)
